@@ -7,7 +7,13 @@ PATCH=$(readlink -f "$1"); shift
 W=$(mktemp -d /tmp/muttest.XXXXXX)
 git -C /repo worktree add -q --detach "$W/repo" HEAD || exit 3
 if ! git -C "$W/repo" apply "$PATCH"; then echo "PATCH DOES NOT APPLY"; git -C /repo worktree remove --force "$W/repo"; rm -rf "$W"; exit 3; fi
-rsync -a --exclude .git /verif/ "$W/verif/"
+# committed state of /verif (work in progress of other contributors is not included) + the build cache for speed;
+# MUTTEST_WORKTREE=1 uses the working tree instead
+if [ "${MUTTEST_WORKTREE:-0}" = 1 ]; then
+  rsync -a --exclude .git /verif/ "$W/verif/"
+else
+  mkdir -p "$W/verif" && git -C /verif archive HEAD | tar -x -C "$W/verif" && rsync -a /verif/lean/.lake "$W/verif/lean/"
+fi
 for ID in "$@"; do
   echo "=== $ID with $(basename $(dirname $PATCH))/$(basename $PATCH)"
   ( cd "$W/verif" && PDB2SQL_REPO="$W/repo" timeout 1500 ./check "$ID" 2>&1 | grep -E "VIOLATION|KNOWN-FINDING|CHECK-ERROR|TIMEOUT" ; echo "exit=${PIPESTATUS[0]}" )
